@@ -289,7 +289,9 @@ def run_case(case):
             if any(dev[0] == "extra" for dev in case.get("env", [])) \
                     and inf.get("target"):
                 pass
-            state = corpus.state_ref(inf["input"], inf["position"], names)
+            state = corpus.state_ref(inf["input"], inf["position"], names,
+                                     neutraln="--neutraln" in opts,
+                                     neutralc="--neutralc" in opts)
             core = state[-3:]
             allowed = ALLOWED_STATES.get(inf["input"],
                                          {T.base_of(inf["input"])
